@@ -12,8 +12,8 @@ EXPLANATION = ('Arrays have independent symbolic entries, dx / fill value / diam
                'Obligations: the origin sample (index n//2) lands on index N//2, every other sample keeps its offset, the rest is '
                'the fill value; crop undoes pad; grids and frequency axes are exactly zero at n//2; slices pass through the '
                'origin sample; a point source k samples from the origin is reported at k*dx.')
-BOUNDS = {'quick': 'axis lengths 1..6 (pad/crop: all (n,N) pairs per axis, 2-D shapes pairing every row case with a column case); centroid images up to 5x4',
-          'thorough': 'axis lengths 1..10; centroid images up to 7x6'}
+BOUNDS = {'quick': 'axis lengths 1..6 (pad/crop: all (n,N) pairs per axis, 2-D shapes pairing every row case with a column case); centroid images up to 5x4; FFT-route origin obligations on 10 shape/Q combinations up to 5x5',
+          'thorough': 'axis lengths 1..10; centroid images up to 7x6; FFT-route origin up to 7x7'}
 OUTSIDE = 'axis lengths above the bound (the size-symbolic layer sketched in DESIGN.md 2.3-S is not built); sizes >= 2^53'
 MAX_PATHS = 64
 NDERIVED = 8
